@@ -156,8 +156,20 @@ func (r *Router) notFound(c *C) error {
 }
 
 // Serve serves the incoming context. It returns Miss if the path hits
-// nothing and Default() is not set.
+// nothing and Default() is not set. A router that misses leaves the routing
+// position of the context where it found it, so that the service that is
+// tried next (another router, the next tier of a ServiceSet) routes the
+// same path rather than what this router left of it.
 func (r *Router) Serve(c *C) error {
+	pos := c.routePos
+	err := r.serve(c)
+	if err == Miss {
+		c.routePos = pos
+	}
+	return err
+}
+
+func (r *Router) serve(c *C) error {
 	rel := c.Rel()
 	if rel == "" {
 		if r.index == nil {
